@@ -348,7 +348,11 @@ def main(pid="C16", rep=None, finish=True):
                 if not task.done():
                     task.cancel()
                     net.loop.run_idle()
-                    raise tlc.TLCError("overlapping fetches did not finish")
+                    # two fetches that never end are what "terminates after at most max_redirects + 1 connections" forbids
+                    rep.violation({"formula": "Bounded", "overlapping": True, "unfinished": True},
+                                  "Bounded falsified: two overlapping fetches on one client (graph %s, starts %s and %s, max_redirects=%d) did not finish within 400 steps of the peers' answers; connections so far: %d" % (
+                                      {k: (v["k"], v.get("to", "-")) for k, v in G.items()}, s1, s2, mx, len(net.conns)), None)
+                    continue
                 ov += 1
                 total_bound = 0
                 for start, r_ in zip((s1, s2), task.result()):
